@@ -179,15 +179,20 @@ def _remove_matched_tasks(
         if itask:
             # remove active task from the pool
             fnums_to_remove = itask.match_flows(flow_nums)
-            if not fnums_to_remove:
+            if fnums_to_remove:
+                removed[itask.tokens.task] = fnums_to_remove
+                if fnums_to_remove == itask.flow_nums:
+                    schd.pool.remove(itask, 'request')
+                    to_kill.append(itask)
+                    itask.removed = True
+                itask.flow_nums.difference_update(fnums_to_remove)
+            elif not itask.flow_nums:
+                # no-flow task: not removable
                 not_removed.add(itask.tokens.task)
                 continue
-            removed[itask.tokens.task] = fnums_to_remove
-            if fnums_to_remove == itask.flow_nums:
-                schd.pool.remove(itask, 'request')
-                to_kill.append(itask)
-                itask.removed = True
-            itask.flow_nums.difference_update(fnums_to_remove)
+            # else: the active task is not in the given flows, but it may
+            # have run in them before it was respawned in its present flows:
+            # that history, and its effect downstream, is still removed below
 
         # remove task from the DB
         tdef = schd.config.taskdefs[id_['task']]
